@@ -173,6 +173,9 @@ func c01Units(tier string, seed int64) []Unit {
 			for _, nff := range []bool{true, false} {
 				for s := 0; s < nseeds; s++ {
 					pi, mk, checks, nff := pi, mk, checks, nff
+					if quick && checks == 1 && mk().Name == "rejected-attempts-decide-the-site" {
+						continue // the quick tier runs this (expensive: many cut points) program with 5 checks only
+					}
 					sd := uint64(seed)*7907 + uint64(s)*104729 + 11
 					units = append(units, Unit{Name: fmt.Sprintf("C01/prog=%d/checks=%d/nofailfile=%v/seed=%d", pi, checks, nff, sd), Run: func(c *Ctx) {
 						prog := mk()
@@ -285,6 +288,6 @@ func init() {
 			"distinct = distinct (class, #invocations, site); non-trivial = a failure was reported.",
 		Assumptions: []string{"cut points are enumerated at the granularity of property invocations: clock readings between two invocations see the same shrinker state"},
 		Units:       c01Units,
-		Budget:      map[string]time.Duration{"quick": 55 * time.Second, "thorough": 25 * time.Minute},
+		Budget:      map[string]time.Duration{"quick": 70 * time.Second, "thorough": 25 * time.Minute},
 	})
 }
